@@ -39,8 +39,9 @@ package dns
 //@   ensures ok:   err == nil ==> off1 == off + 8 && off1 <= len(msg)
 //@   ensures fail: err != nil ==> off1 == len(msg)
 
-//@ func cloneSlice [C02 C16 C12:fresh]
+//@ func cloneSlice [C02 C16 C12:fresh C01:same]
 //@   ensures len(ret0) == len(s) && (s == nil ==> ret0 == nil)
+//@   ensures same: intelems(s) ==> (forall k in 0..len(s) :: ret0[k] == s[k])
 //@   ensures fresh: fresh(ret0)
 //@   fresh
 
@@ -48,6 +49,7 @@ package dns
 //@   ensures only: ret2 != nil ==> off + 4 > len(msg) [C01]
 //@   requires 0 <= off
 //@   ensures ok:   ret2 == nil ==> ret1 == off + 4 && ret1 <= len(msg) && len(ret0) == 4
+//@   ensures octets: ret2 == nil ==> (forall k in 0..4 :: ret0[k] == msg[off+k]) [C01]
 //@   ensures fail: ret2 != nil ==> ret1 == len(msg)
 //@   ensures fresh: fresh(ret0)
 
@@ -55,6 +57,7 @@ package dns
 //@   ensures only: ret2 != nil ==> off + 16 > len(msg) [C01]
 //@   requires 0 <= off
 //@   ensures ok:   ret2 == nil ==> ret1 == off + 16 && ret1 <= len(msg) && len(ret0) == 16
+//@   ensures octets: ret2 == nil ==> (forall k in 0..16 :: ret0[k] == msg[off+k]) [C01]
 //@   ensures fail: ret2 != nil ==> ret1 == len(msg)
 //@   ensures fresh: fresh(ret0)
 
@@ -111,12 +114,21 @@ package dns
 //@   loop 1 decreases maxCompressionPointers - ptr
 //@   loop 1 decreases lenmsg - off
 
+//@ spec txtsum(m seq, a int, n int) int = n <= 0 ? 0 : txtsum(m, a, n - 1) + txtw(m[a+n-1]) decreases n
 //@ func unpackString [C01 C02]
 //@   ensures only: ret2 != nil ==> off + 1 > len(msg) || off + 1 + msg[off] > len(msg) [C01]
 //@   requires 0 <= off
 //@   ensures ok:   ret2 == nil ==> off < ret1 && ret1 <= len(msg) && ret1 == off + 1 + msg[off]
 //@   ensures fail: ret2 != nil ==> off <= ret1
 //@   loop 1 invariant 0 <= consumed && consumed <= rangeindex + 1 && consumed <= l
+// printed form (RFC 1035 5.1 character-string): the text has exactly the width of the octets' escape units - a quote or
+// a backslash takes two characters (a backslash and the octet itself), an unprintable octet the four of \DDD, any
+// other octet one - so no octet that needs an escape is copied raw and none is escaped needlessly
+//@   assume at "consumed := 0" empty: ghost(s, "len") == 0
+//@   ensures width: ret2 == nil ==> len(ret0) == txtsum(msg, off + 1, msg[off]) [C01 C05]
+//@   loop 1 invariant width: ghost(s, "len") + (rangeindex + 1 - consumed) == txtsum(msg, off, rangeindex + 1) && (consumed == 0 ==> ghost(s, "len") == 0) && -1 <= rangeindex && rangeindex < l [C01 C05]
+//@   callsite "WriteByte" esc: arg1 == 92 || arg1 == b [C01 C05]
+//@   callsite "WriteString" ddd: same(arg1, callres("escapeByte")) && callarg("escapeByte", 0) == b [C01 C05]
 
 //@ func unpackTxt [C01 C02]
 //@   requires 0 <= off0
@@ -154,6 +166,7 @@ package dns
 
 //@ func unpackStringAny [C01 C02]
 //@   ensures only: ret2 != nil ==> end > len(msg) [C01]
+//@   ensures octets: ret2 == nil ==> len(ret0) == end - off && (forall k in 0..end-off :: ret0[k] == msg[off+k]) [C01]
 //@   requires 0 <= off && off <= end
 //@   ensures ok:   ret2 == nil ==> ret1 == end && end <= len(msg)
 //@   ensures fail: ret2 != nil ==> ret1 == len(msg)
